@@ -277,6 +277,13 @@ class Ctx:
         for key, k in seen_known:
             print("KNOWN-FINDING: property=%s %s [%s]" % (self.prop, k.get("what", ""), key))
         paths = []
+        vd = os.path.join(os.environ.get("VF_VIOLATIONS_DIR") or os.path.join(VERIF, "violations"), self.prop)
+        if os.path.isdir(vd):  # artefacts of earlier runs are stale
+            for old in os.listdir(vd):
+                try:
+                    os.unlink(os.path.join(vd, old))
+                except OSError:
+                    pass
         for key, what, art in unknown:
             d = os.path.join(os.environ.get("VF_VIOLATIONS_DIR") or os.path.join(VERIF, "violations"), self.prop)
             os.makedirs(d, exist_ok=True)
